@@ -14,7 +14,10 @@
      schema.rs           which attributes are reference typed (ref_cache), single-value / MUST / MAY
    Reference attributes are numbered: 0 Member, 1 EntryManagedBy, 2 Refers, 3 OAuth2RsScopeMap,
    4 OAuth2RsSupScopeMap, 5 RecycledDirectMemberOf (stored); 6 DirectMemberOf, 7 MemberOf (maintained
-   by the memberof plugin, derived here from the group graph); 9 any other reference type.
+   by the memberof plugin, derived here from the group graph); 9 any other reference type;
+   10, 11, 12 OAuth2RsClaimMap under the claim names ca, cb, cc (the value set is a map
+   claim name -> group uuid -> values; its references are the union over the claim names, and
+   ValueSetOauthClaimMap::remove(Refer u) must take u out of EVERY claim name).
    Retention windows are not modelled (they are C26's subject): the harness runs every purge 8 days
    after the previous transaction, so a purge takes every recycled entry / every tombstone. *)
 From Coq Require Import List NArith Bool.
@@ -95,7 +98,8 @@ Definition mo (s : state) (y : N) : list N := mo_fuel (length s) s y.
 (* EntryManagedBy is MAY on class object; Member on group; Refers on clientcertificate; scope maps on
    oauth2resourceserver *)
 Definition attr_ok (k a : N) : bool :=
-  (a =? 1) || ((a =? 0) && (k =? 1)) || ((a =? 2) && (k =? 2)) || (((a =? 3) || (a =? 4)) && (k =? 3)).
+  (a =? 1) || ((a =? 0) && (k =? 1)) || ((a =? 2) && (k =? 2))
+  || (((a =? 3) || (a =? 4) || (a =? 10) || (a =? 11) || (a =? 12)) && (k =? 3)).
 Definition sch_ok (k : N) (r : refs) : bool :=
   forallb (fun a => isnil (getr a r) || attr_ok k a) (map fst r)
   && Nat.leb (length (getr 1 r)) 1 && Nat.leb (length (getr 2 r)) 1
@@ -309,11 +313,12 @@ Definition nonempty (p : N * list N) : bool := negb (isnil (snd p)).
 Definition canon (s : state) (e : ent) : refs :=
   filter nonempty
     (map (fun a => (a, getr a (erefs e))) [0; 1; 2; 3; 4; 5]
-     ++ (if is_live (est e) then [(6, dmo s (eid e)); (7, mo s (eid e))] else [])).
+     ++ (if is_live (est e) then [(6, dmo s (eid e)); (7, mo s (eid e))] else [])
+     ++ map (fun a => (a, getr a (erefs e))) [10; 11; 12]).
 Definition abs (s : state) (e : ent) : oent :=
   mkoent (eid e) (ekind e) (est e) (canon s e) (ecasc e) 0.
 Definition absS (s : state) : list oent := map (abs s) s.
-Definition stored (p : N * list N) : bool := fst p <? 6.
+Definition stored (p : N * list N) : bool := negb ((fst p =? 6) || (fst p =? 7)).
 Definition of_obs (o : oent) : ent :=
   mkent (oid o) (okind o) (ost o) (filter stored (orefs o)) (ocasc o).
 
